@@ -253,6 +253,8 @@ class Service:
         logger.info(f"Search for service {self.short_sid} successfully.")
 
     def close_service(self):
+        if self.get_current_service_state() == SERVICE_STATE.NOT_EXISTS:
+            return  # nothing has been stored for this service yet, so there is no state to write back
         self._store_service_meta()
 
     async def wait_closed(self):
